@@ -169,7 +169,11 @@ pub fn config_text(s: &ServerSpec) -> String {
     // YAML would read an all-digit seed as a number: quote it (any other seed is written bare,
     // as in the README)
     let numeric = !s.seed_hex.is_empty() && s.seed_hex.chars().all(|c| c.is_ascii_digit() || c == 'e' || c == 'E' || c == '.');
-    lines.push(("seed".into(), if numeric { format!("\"{}\"", s.seed_hex) } else { s.seed_hex.clone() }));
+    lines.push(("seed".into(), match &s.seed_written {
+        Some(w) => w.clone(),
+        None if numeric => format!("\"{}\"", s.seed_hex),
+        None => s.seed_hex.clone(),
+    }));
     if s.batch_written {
         lines.push(("batch_size".into(), s.batch_size.to_string()));
     }
@@ -202,7 +206,7 @@ pub fn config_env(s: &ServerSpec) -> BTreeMap<String, String> {
     let mut e = BTreeMap::new();
     e.insert("ROUGHENOUGH_INTERFACE".to_string(), s.interface.clone());
     e.insert("ROUGHENOUGH_PORT".to_string(), s.port.to_string());
-    e.insert("ROUGHENOUGH_SEED".to_string(), s.seed_hex.clone());
+    e.insert("ROUGHENOUGH_SEED".to_string(), s.seed_written.clone().unwrap_or_else(|| s.seed_hex.clone()));
     if s.batch_written {
         e.insert("ROUGHENOUGH_BATCH_SIZE".to_string(), s.batch_size.to_string());
     }
@@ -750,7 +754,7 @@ fn closed_loop_main(sock_no: u32, protos: Vec<P>, count: u32, think_us: u64, tim
     let mut buf = vec![0u8; 8192];
     for i in 0..count {
         let proto = protos[i as usize % protos.len()];
-        let spec = ReqSpec::Valid { proto, size: 1024, nonce_seed: seed.wrapping_mul(1_000_003).wrapping_add(i as u64), srv: SrvMode::Absent, vers: vec![r::VER_DRAFT13] };
+        let spec = reqs::valid_variant(proto, seed.wrapping_mul(1_000_003).wrapping_add(i as u64));
         let bytes = reqs::build(&spec, &srv);
         let t = dsim::now();
         let _ = sock.send_to(&bytes, target);
@@ -793,12 +797,12 @@ fn closed_loop_main(sock_no: u32, protos: Vec<P>, count: u32, think_us: u64, tim
     dsim::sleep(Duration::from_secs(3600));
 }
 
-fn flood_tick(sock: dsim::SockId, bytes: std::rc::Rc<Vec<u8>>, target: SocketAddr, interval_ns: u64, left: u32) {
+fn flood_tick(sock: dsim::SockId, bytes: std::rc::Rc<Vec<Vec<u8>>>, target: SocketAddr, interval_ns: u64, left: u32) {
     if left == 0 {
         return;
     }
     dsim::with(|w| {
-        let _ = w.udp_send(sock, &bytes, target);
+        let _ = w.udp_send(sock, &bytes[left as usize % bytes.len()], target);
         let at = w.now + interval_ns;
         let b = bytes.clone();
         w.at(at, move || flood_tick(sock, b, target, interval_ns, left - 1));
@@ -995,10 +999,19 @@ pub fn run(plan: &Plan, tape: dsim::Tape) -> RunOut {
                     })
                 });
             }
-            Action::Flood { sock, proto, interval_ns, count } => {
+            Action::Flood { sock, proto, interval_ns, count, payload } => {
                 let srv = ctx(|c| c.srv.clone());
-                let spec = ReqSpec::Valid { proto, size: 1024, nonce_seed: plan.seed ^ 0xf100d, srv: SrvMode::Absent, vers: vec![r::VER_DRAFT13] };
-                let bytes = std::rc::Rc::new(reqs::build(&spec, &srv));
+                let valid = ReqSpec::Valid { proto, size: 1024, nonce_seed: plan.seed ^ 0xf100d, srv: SrvMode::Absent, vers: vec![r::VER_DRAFT13] };
+                let wrong_srv = ReqSpec::RawVer { size: 1024, nonce_seed: plan.seed ^ 0xf100e, ver: Some(r::VER_DRAFT13.to_le_bytes().to_vec()), srv: SrvMode::Other(plan.seed ^ 0x51) };
+                let specs: Vec<ReqSpec> = match payload.as_deref().unwrap_or("valid") {
+                    "wrong_srv" => vec![wrong_srv],
+                    "garbage" => vec![ReqSpec::Garbage { len: 1100, seed: plan.seed ^ 0x6a }],
+                    "empty" => vec![ReqSpec::Garbage { len: 0, seed: 0 }],
+                    "short" => vec![ReqSpec::Mutant { base: Box::new(valid), muts: vec![Mutation::Truncate(1000)] }],
+                    "mixed" => vec![valid, wrong_srv],
+                    _ => vec![valid],
+                };
+                let bytes = std::rc::Rc::new(specs.iter().map(|s| reqs::build(s, &srv)).collect::<Vec<_>>());
                 dsim::with(|w| {
                     w.at(at, move || {
                         let s = ensure_client_sock(sock);
